@@ -235,6 +235,31 @@ Definition task_resreq (ippvs plr ippl dra : bool) (m : pod_meta) (p : pod) : re
 Definition task_best_effort (ippvs plr ippl dra : bool) (m : pod_meta) (p : pod) : bool :=
   is_empty 1 (task_init_resreq ippvs plr ippl dra m p).
 
+(* ---- SchedulerCache.NewTaskInfo (pkg/scheduler/cache/event_handlers.go 90-100, 253-259) ----
+   The TaskInfo the cache actually charges to the ledgers (addPod 263-265) is
+   api.NewTaskInfo's, mutated: for every attach-limit name the pod's CSI volumes
+   resolve to (getPodCSIVolumes 101-165 through the PVC / PV / StorageClass
+   listers: external behaviour, given here as the list [keys] of resolved
+   names, one entry per counted volume)
+       pi.Resreq.AddScalar(key, float64(count))
+   Resreq and InitResreq are ONE pointer (job_info.go 208-209), so InitResreq
+   sees the same mutation, and BestEffort is recomputed from it.  The count is
+   added as a raw number (not milli). *)
+Definition csi_counts (keys : list positive) : smap :=
+  fold_left (fun c k => <[k := default 0 (c !! k) + 1]> c) keys ∅.
+
+(* the loop of AddScalar calls = Resource.Add of a vector that has only these scalars *)
+Definition cache_add_csi (r : res) (keys : list positive) : res :=
+  add r (mkRes 0 0 (Some (csi_counts keys))).
+
+Definition cache_task_resreq (ippvs plr ippl dra : bool) (keys : list positive) (m : pod_meta) (p : pod) : res :=
+  cache_add_csi (task_resreq ippvs plr ippl dra m p) keys.
+(* the same object as Resreq *)
+Definition cache_task_init_resreq (ippvs plr ippl dra : bool) (keys : list positive) (m : pod_meta) (p : pod) : res :=
+  cache_task_resreq ippvs plr ippl dra keys m p.
+Definition cache_task_best_effort (ippvs plr ippl dra : bool) (keys : list positive) (m : pod_meta) (p : pod) : bool :=
+  is_empty 1 (cache_task_init_resreq ippvs plr ippl dra keys m p).
+
 (* ================= upstream ================= *)
 
 (* PodResourcesOptions, the fields the scheduler sets; the others are at their
